@@ -305,6 +305,8 @@ def run(ch: Checker) -> None:
 
     # ---------------- C09.1b (shared)
     ch.import_rules('C08', {'C08.2': 'C09.1b'}, 'the authentication plugin runs ahead of user plugins only if it is loaded ahead of them')
+    ch.import_rules('C04', {'C04.4': 'C09.7'}, 'the follow-up plugin chain sees each later request once only if a request a plugin dropped does not leave its parser behind for the next one')
+    ch.import_rules('C10', {'C10.10': 'C09.8'}, 'the lifecycle hooks fire for a rejected or failed first request only if shutdown() can find the plugin object that was running')
 
     # ---------------- C09.4
     rej = prog.class_named('HttpRequestRejected')
